@@ -137,13 +137,16 @@ impl Prop for Mutants {
                 return out.fail("valid-message-rejected", format!("impl {:?} / reference {:?} on {}", a.map(|r| r.map(|_| ())), b.map(|_| ()), short(&base)));
             }
         }
-        if base.len() > 400 {
-            // long bases: mutate a window only (keeps the case cost bounded)
+        // long bases: mutate the first 300 and the last 100 octets only (keeps
+        // the case cost bounded; the tail holds the last records)
+        let offsets: Vec<usize> = if base.len() > 400 {
             out.classes.push("base:long".into());
-        }
-        let limit = base.len().min(400);
+            (0..300).chain(base.len() - 100..base.len()).collect()
+        } else {
+            (0..base.len()).collect()
+        };
         let mut buf = base.clone();
-        'outer: for i in 0..limit {
+        'outer: for i in offsets {
             let orig = buf[i];
             for v in [orig.wrapping_add(1), orig.wrapping_sub(1)].into_iter().chain(MUT_VALUES) {
                 if v == orig {
@@ -271,7 +274,7 @@ pub fn def() -> PropertyDef {
     PropertyDef {
         id: "C03",
         level: "exploration",
-        rule: "mutants: a valid message (all record types, unknown types/classes, names from a shared pool, 63-octet labels, 255-octet names) encoded by the reference encoder with random compression choices (pointers to any earlier suffix); the check then feeds the decoder the base message, every single-byte mutation (each offset < 400 x {+1,-1,0x00,0x3f,0x40,0xc0,0xff}) and every truncation, and compares accept/reject, all decoded fields and the ID rule with R-WIRE (counter 'inputs' = byte strings judged). constructions: the enumerated adversarial inputs (self/forward pointers, cycles, pointers into the header, reserved label types, label and name length boundaries in-line and through pointers, huge counts, RDLENGTH +-1/2 on every type, backward pointer chains up to 8180 hops incl. a 64 KB message with 3000 names ending in the maximal chain, trailing bytes, header prefixes). random: random bytes of length 0..3000, mostly with plausible counts. All run on a 2 MiB thread in a child process (stack overflow = crash = violation). A case is non-trivial if it is a mutant family of a valid message, a construction, or random bytes which the decoder accepts; distinct by hash of the case.",
+        rule: "mutants: a valid message (all record types, unknown types/classes, names from a shared pool, 63-octet labels, 255-octet names) encoded by the reference encoder with random compression choices (pointers to any earlier suffix); the check then feeds the decoder the base message, every single-byte mutation (each offset, for messages over 400 octets the first 300 and the last 100 offsets, x {+1,-1,0x00,0x3f,0x40,0xc0,0xff}) and every truncation, and compares accept/reject, all decoded fields and the ID rule with R-WIRE (counter 'inputs' = byte strings judged). constructions: the enumerated adversarial inputs (self/forward pointers, cycles, pointers into the header, reserved label types, label and name length boundaries in-line and through pointers, huge counts, RDLENGTH +-1/2 on every type, backward pointer chains up to 8180 hops incl. a 64 KB message with 3000 names ending in the maximal chain, trailing bytes, header prefixes). random: random bytes of length 0..3000, mostly with plausible counts. All run on a 2 MiB thread in a child process (stack overflow = crash = violation). A case is non-trivial if it is a mutant family of a valid message, a construction, or random bytes which the decoder accepts; distinct by hash of the case.",
         assumptions: vec![
             "R-WIRE policy: trailing bytes ignored; a pointer must target an offset before the start of the name (sub)sequence being read; Z bits ignored",
             "release profile, repo toolchain; stack bound checked on a 2 MiB thread with a shallow call stack",
